@@ -191,6 +191,86 @@ def _hier_worker(job):
     return base, tb, e, fails, skipped, reasons, worst, compared
 
 
+# ------------------------------------------------------------------ near-degenerate strata
+# Fast paths "if x is within 1e-3 of 1" tested on a SIGNED ratio are taken by one member of a flip pair only.  So
+# every pair and triple of (|mu|, |M1|, |M2|, msl(2,2), mse(2,2), m_sneutrino) is put within small relative
+# offsets of one another (first member on the common scale, the others at different offsets so that no two are
+# exactly equal unless the offset is 0), every sign pattern of (mu, M1, M2) paired with its complete flip.
+DG_NAMES = ["Mu", "M1", "M2", "msl2", "mse2", "msv"]
+DG_OFFS = [0.0, 1e-6, -1e-6, 2e-4, -2e-4, 5e-4, -5e-4, 2e-3, -2e-3, 1e-2, -1e-2]
+DG_TBS = [2.0, 10.0, 50.0]
+DG_SCALES = [400.0]
+DG_PATTERNS = [(1.0, s1, s2, 1.0, 1.0, 1.0, 1.0, 1.0) for s1 in (1.0, -1.0) for s2 in (1.0, -1.0)]
+
+
+def dg_configs():
+    out = []
+    for n in (2, 3):
+        for sset in itertools.combinations(DG_NAMES, n):
+            if "msl2" in sset and "msv" in sset:
+                continue                     # the sneutrino mass is fixed by msl(2,2)
+            for i, o in enumerate(DG_OFFS):
+                offs = [0.0, o] + ([DG_OFFS[(i + 2) % len(DG_OFFS)]] if n == 3 else [])
+                out.append(tuple(zip(sset, offs)))
+    return out
+
+
+def dg_base(S, tb, cfg):
+    import math
+    val = {"Mu": 2.6 * S, "M1": 2.0 * S, "M2": 2.3 * S, "msl2": 1.7 * S, "mse2": 1.45 * S}
+    c = dict(cfg)
+    for k_, o in c.items():
+        if k_ != "msv":
+            val[k_] = S * (1 + o)
+    if "msv" in c:      # choose msl(2,2) such that the tree-level sneutrino mass sits at S (1 + offset)
+        c2b = (1 - tb * tb) / (1 + tb * tb)
+        val["msl2"] = math.sqrt((S * (1 + c["msv"])) ** 2 - 0.5 * 91.1876 ** 2 * c2b)
+    return dict(Mu=val["Mu"], M1=val["M1"], M2=val["M2"], M3=2.2 * S, MA=1.9 * S, Q=S,
+                msl=[2.1 * S, val["msl2"], 2.05 * S], mse=[1.95 * S, val["mse2"], 2.15 * S],
+                msq=[3.0 * S, 3.1 * S, 2.9 * S], msu=[3.05 * S, 3.15 * S, 2.8 * S], msd=[2.95 * S, 3.2 * S, 3.0 * S],
+                Ae=[0.25 * S, 0.3 * S, 0.5 * S], Ad=[0.4 * S, 0.45 * S, 1.2 * S], Au=[0.35 * S, 0.38 * S, 0.9 * S])
+
+
+def _dg_worker(job):
+    S, tb, cfgs = job
+    lay = mssmrun.layout("plain")["O"]
+    pts, who = [], []
+    for cfg in cfgs:
+        mssmrun.BASE_POINTS["__dg__"] = dg_base(S, tb, cfg)
+        for p in DG_PATTERNS:
+            pts.append(mssmrun.os_point("__dg__", tb, p))
+            pts.append(mssmrun.os_point("__dg__", tb, tuple(-x for x in p)))
+            who.append((cfg, p))
+    res = mssmrun.run_os(pts, "plain")
+    fails, skipped, reasons, compared = [], 0, {}, []
+    ok = []
+    for i, (cfg, p) in enumerate(who):
+        a, b = res[2 * i], res[2 * i + 1]
+        if a[0] != "OK" or b[0] != "OK":
+            if a[0] != b[0] or a[1:] != b[1:]:
+                fails.append((cfg, p, "status", "spectrum status differs between a point and its flip: %r vs %r" % (a[:3], b[:3])))
+            skipped += 1
+            r = a if a[0] != "OK" else b
+            reasons[r[2][:50]] = reasons.get(r[2][:50], 0) + 1
+            continue
+        ok.append(i)
+    worst = {}
+    if ok:
+        A = np.stack([res[2 * i][1] for i in ok])
+        B = np.stack([res[2 * i + 1][1] for i in ok])
+        bads, worst = compare_block(lay, A, B)
+        for i, bad in zip(ok, bads):
+            cfg, p = who[i]
+            compared.append((cfg, p))
+            seen = set()
+            for n, j, x, y, rel in bad:
+                if n in seen:
+                    continue
+                seen.add(n)
+                fails.append((cfg, p, n, "%s[%d] = %r at signs(mu,M1,M2)=%r but %r at the completely flipped point (rel. diff %.3e)" % (n, j, x, list(p[:3]), y, rel)))
+    return S, tb, fails, skipped, reasons, compared, worst
+
+
 def _worker(job):
     base, tb = job[:2]
     lay = mssmrun.layout("plain")["O"]
@@ -318,6 +398,30 @@ def run(ctx):
                          {"base": base, "tb": hexf(tb), "signs": list(p)})
             if compared:
                 ctx.sample({"base": base, "tb": tb, "signs": list(compared[len(compared) // 2]), "pairs_compared": len(compared), "pairs_skipped": skipped})
+    # near-degenerate strata
+    dcfg = dg_configs()
+    djobs = [(S, tb, dcfg[i:i + 40]) for S in DG_SCALES for tb in DG_TBS for i in range(0, len(dcfg), 40)]
+    dcmp, dskip, dreasons, dworst = 0, 0, {}, {}
+    with mp.Pool(min(16, os.cpu_count() or 4)) as pool:
+        for S, tb, fails, skipped, sr, compared, w in pool.imap(_dg_worker, djobs):
+            ctx.evals(2 * (len(compared) + skipped))
+            dcmp += len(compared)
+            dskip += skipped
+            for k, v in sr.items():
+                dreasons[k] = dreasons.get(k, 0) + v
+            for k, v in w.items():
+                dworst[k] = max(dworst.get(k, 0.0), v)
+            for cfg, p in compared:
+                ctx.nontrivial(("degenerate", S, tb, cfg, p[:3]))
+            for cfg, p, n, what in fails:
+                ctx.fail("degenerate:%s:%s" % (n, "~".join(k for k, _ in cfg)),
+                         "%s  [near-degenerate stratum %s around %g GeV, tan(beta)=%g]" % (what, ", ".join("%s:%+g" % c for c in cfg), S, tb),
+                         {"degenerate": {"S": hexf(S), "tb": hexf(tb), "cfg": [[k, hexf(o)] for k, o in cfg], "signs": list(p)}})
+    ctx.note("degenerate_strata_configurations(pairs+triples x offsets)", len(dcfg))
+    ctx.note("degenerate_pairs_compared", dcmp)
+    ctx.note("degenerate_pairs_skipped(threw/problem)", dskip)
+    ctx.note("degenerate_skip_reasons", dreasons)
+    ctx.note("degenerate_largest_relative_differences", {k: float("%.3g" % v) for k, v in sorted(dworst.items(), key=lambda kv: -kv[1])[:8]})
     # hierarchy dimension
     es = HIER_E_QUICK if ctx.quick else HIER_E_THOROUGH
     hb = hier_bases(ctx.quick)
@@ -390,6 +494,19 @@ def replay(ctx, path):
     d = json.load(open(path))
     dd = d["data"]
     mssmrun.exe("plain")
+    if "degenerate" in dd:
+        g = dd["degenerate"]
+        cfg = tuple((k, unhex(o)) for k, o in g["cfg"])
+        S_, tb_, fails, skipped, reasons, _, _ = _dg_worker((unhex(g["S"]), unhex(g["tb"]), [cfg]))
+        p = tuple(float(x) for x in g["signs"])
+        hit = [f for f in fails if f[1] == p] or fails
+        for _, pp, n, what in hit[:8]:
+            print("replay: [%s] %s" % (n, what))
+        if hit:
+            print("VIOLATION property=C06 replay=%s" % path)
+            return 1
+        print("replay: holds now (near-degenerate pair agrees to 1e-9)")
+        return 0
     if "hier" in dd:
         h = dd["hier"]
         base, tb, e, sset, p = h["base"], unhex(h["tb"]), unhex(h["e"]), tuple(h["sset"]), tuple(float(x) for x in h["signs"])
